@@ -25,7 +25,8 @@ from pandera.errors import (
     SchemaErrorReason,
     SchemaErrors,
 )
-from pandera.validation_depth import validation_type
+from pandera.config import ValidationScope
+from pandera.validation_depth import validate_scope, validation_type
 
 
 class ColumnBackend(ArraySchemaBackend):
@@ -230,6 +231,7 @@ class ColumnBackend(ArraySchemaBackend):
             axis="columns",
         )
 
+    @validate_scope(scope=ValidationScope.DATA)
     def run_checks(self, check_obj, schema):
         check_results: List[CoreCheckResult] = []
         for check_index, check in enumerate(schema.checks):
